@@ -6,7 +6,7 @@
 
 Nodes are `0 … n-1` (the index order is the order of the node ids, which is what breaks ties in the
 heap); edge ids are assumed unique (`EDGES` is a dict keyed by id). `poids = -1` is `none`.
-A* mode (`routing_mode = 1`) is outside the model. The functions here are pure (one search on a fresh labelling);
+A* mode (`routing_mode = 1`: same labels and relaxation, the queue ordered by `poids + heuristic`) is `Model/GraphAStar.lean`. The functions here are pure (one search on a fresh labelling);
 `Model/GraphSession.lean` has the same calls as a state machine on one object (flags, `DISTANCES` and a caller's
 dictionary carried from call to call, `__resetFlags`, `addNode` / `addEdge` between searches), `Model/GraphPD.lean` the
 loop with the explicit `priority_dict` (`Model/PDict.lean`) on the modelled `heapq` (`Model/Heapq.lean`). Core Lean only. -/
